@@ -1,2 +1,314 @@
-//! Harnesses for property C44 (see /verif/properties.jsonl).
-use crate::stubs;
+//! C44 CSPTP clients survive any server traffic and only use matching answers.
+//!
+//! `c44_corr*`: the private timestamp arithmetic (`add_correction`, `convert_to_ntp`) against exact
+//! integer arithmetic. `c44_collect*`: the private `collect_response` loop polled to quiescence over a
+//! scripted in-memory socket; the oracle is a reference state machine written from the protocol
+//! description (one-step answer / two-step answer + follow-up, in either order) on the raw bytes.
+use crate::common::*;
+use core::future::Future;
+use core::task::{Context, Poll};
+use ntp_proto::{Measurement, ObservableSourceTimedata, PollInterval, SourceController};
+use statime_csptp::verif::source as sh;
+use statime_csptp::{ClientRecvResult, ClientSocket, CsptpConfig, CsptpManager, CsptpSource, CsptpSourceConfig, InternalState};
+use statime_wire::{TimeInterval, Timestamp};
+use std::cell::RefCell;
+
+// ------------------------------------------------------------------ arithmetic
+const NS: i128 = 1_000_000_000;
+
+#[derive(Clone, Copy, PartialEq)]
+enum Region {
+    InRange,
+    OutOfRange,
+}
+
+/// `corr_bits`: the correction is restricted to |correction| < 2^corr_bits nanoseconds
+/// (63 - 16 = 47 = every i64 correction field). The in-range proof has to relate three hardware
+/// dividers to exact integer arithmetic, which is hard for a SAT solver at full width.
+fn corr(region: Region, corr_bits: u32) {
+    let s: u64 = kani::any();
+    let n: u32 = kani::any();
+    let c: i64 = kani::any();
+    kani::assume(s < (1u64 << 48) && n < 1_000_000_000);
+    kani::assume((c >> 16) < (1i64 << corr_bits) && (c >> 16) >= -(1i64 << corr_bits));
+    let ts = Timestamp::new(s, n).unwrap();
+    // Exact corrected time in nanoseconds; the correction field counts 2^-16 ns (floor to whole ns).
+    // The oracle is stated with multiplications only (result * 10^9 + nanos == total): a second
+    // divider circuit next to the one in the code under test makes the SAT problem intractable.
+    let total: i128 = (s as i128) * NS + n as i128 + ((c >> 16) as i128);
+    let in_range = total >= 0 && total < (1i128 << 48) * NS;
+    match region {
+        Region::InRange => kani::assume(in_range),
+        Region::OutOfRange => kani::assume(!in_range),
+    }
+    let r = sh::add_correction_hook(ts, TimeInterval(c));
+    // (reaching this point = no panic)
+    assert!(r.nanos() < 1_000_000_000, "nanoseconds normalised");
+    assert!(r.seconds() < (1u64 << 48), "seconds fit the 48-bit wire field");
+    // result - input == correction, stated on the (small) differences: |correction| < 2^47 ns < 140738 s
+    let ds = r.seconds() as i64 - s as i64;
+    let dn = r.nanos() as i64 - n as i64;
+    assert!(ds >= -140_739 && ds <= 140_739, "seconds move by at most the correction");
+    assert!(ds * 1_000_000_000 + dn == (c >> 16), "corrected timestamp - timestamp = correction (whole nanoseconds, rounded down)");
+    kani::cover!(c < 0 && r.nanos() > n, "negative correction borrows from the seconds");
+    kani::cover!(c > 0 && r.seconds() > s + 1, "correction of more than a second");
+    kani::cover!(s == 0 && c < 0 && r.seconds() == 0, "at the epoch, sub-second negative correction that stays in range");
+}
+
+#[kani::proof]
+fn c44_corr() {
+    corr(Region::InRange, 32);
+}
+
+#[kani::proof]
+fn c44_corr_full() {
+    corr(Region::InRange, 47);
+}
+
+/// Expected to FAIL (known-finding candidate): corrected seconds outside [0, 2^48) hit the
+/// `expect` on `Timestamp::new` in `add_correction` (remote-triggerable panic).
+#[kani::proof]
+fn c44_corr_kf_seconds_out_of_range() {
+    corr(Region::OutOfRange, 47);
+}
+
+#[kani::proof]
+fn c44_to_ntp() {
+    let s: u64 = kani::any();
+    let n: u32 = kani::any();
+    kani::assume(s < (1u64 << 48) && n < 1_000_000_000);
+    let t = sh::convert_to_ntp_hook(Timestamp::new(s, n).unwrap());
+    // PTP (TAI, epoch 1970) -> NTP (UTC, epoch 1900): + 70 years incl. 17 leap days, - 37 s TAI-UTC; era-wrapped
+    let raw = ntp_proto::verif::time_types::ts_raw(t);
+    let secs = ((s as u128 + 2_208_988_800 - 37) % (1u128 << 32)) as u64;
+    assert!(raw >> 32 == secs, "NTP seconds = PTP seconds + 2208988800 - 37 (mod 2^32)");
+    // fraction = floor(n * 2^32 / 10^9), stated without a division
+    let frac = (raw & 0xffff_ffff) as u128;
+    let x = (n as u128) << 32;
+    assert!(frac * 1_000_000_000 <= x && x < (frac + 1) * 1_000_000_000, "NTP fraction = binary fraction of the nanoseconds, rounded down");
+    kani::cover!(s > (1u64 << 32), "seconds beyond one NTP era");
+}
+
+// ------------------------------------------------------------------ response collection
+pub struct NullCtl;
+impl SourceController for NullCtl {
+    fn handle_measurement(&mut self, _m: Measurement) {}
+    fn set_usable(&mut self, _usable: bool) {}
+    fn desired_poll_interval(&self) -> PollInterval {
+        PollInterval::default()
+    }
+    fn observe(&self) -> ObservableSourceTimedata {
+        ObservableSourceTimedata::default()
+    }
+}
+
+const DG: usize = 66; // largest template: header 34 + sync body 10 + response TLV 4+18
+
+#[derive(Clone, Copy)]
+struct Dgram {
+    bytes: [u8; DG],
+    len: usize,
+    rx: Option<Timestamp>,
+    recv_err: bool,
+}
+
+struct Script<const N: usize> {
+    d: [Dgram; N],
+    next: usize,
+}
+
+struct ScriptSock<'a, const N: usize>(&'a RefCell<Script<N>>);
+
+impl<const N: usize> ClientSocket for ScriptSock<'_, N> {
+    type Error = ();
+    fn recv(&mut self, buf: &mut [u8]) -> impl Future<Output = Result<ClientRecvResult, ()>> {
+        let mut s = self.0.borrow_mut();
+        let mut out: Option<Result<ClientRecvResult, ()>> = None;
+        if s.next < N {
+            let d = s.d[s.next];
+            s.next += 1;
+            if d.recv_err {
+                out = Some(Err(()));
+            } else {
+                buf[..d.len].copy_from_slice(&d.bytes[..d.len]);
+                out = Some(Ok(ClientRecvResult { bytes_read: d.len, timestamp: d.rx }));
+            }
+        }
+        // no datagram left: pending forever (the real caller races this against a timeout)
+        core::future::poll_fn(move |_| match out.take() {
+            Some(r) => Poll::Ready(r),
+            None => Poll::Pending,
+        })
+    }
+    fn send_event(&mut self, _buf: &[u8]) -> impl Future<Output = Result<Timestamp, ()>> {
+        core::future::ready(Err(()))
+    }
+}
+
+/// Template datagrams (concrete type and length fields, everything else symbolic):
+/// kind 0 = Sync + CSPTP response TLV, kind 1 = Follow_Up, kind 2 = Sync + CSPTP request TLV.
+fn any_dgram(kind: u8) -> Dgram {
+    let mut b: [u8; DG] = kani::any();
+    let len = match kind {
+        0 => 66,
+        1 => 44,
+        _ => 52,
+    };
+    b[0] = (b[0] & 0xf0) | if kind == 1 { 0x8 } else { 0x0 };
+    put16(&mut b, 2, len as u16);
+    if kind == 0 {
+        put16(&mut b, 44, 0xff01);
+        put16(&mut b, 46, 18);
+        kani::assume(be32(&b, 54) != 1_000_000_000);
+    }
+    if kind == 2 {
+        put16(&mut b, 44, 0xff00);
+        put16(&mut b, 46, 4);
+    }
+    // the parser and Timestamp::new disagree at nanoseconds == 10^9 exactly; excluded (see report)
+    kani::assume(be32(&b, 40) != 1_000_000_000);
+    let has_rx: bool = kani::any();
+    let rx = any_timestamp();
+    Dgram { bytes: b, len, rx: if has_rx { Some(rx) } else { None }, recv_err: kani::any() }
+}
+
+/// What a CSPTP client may use: PTPv2 (versionPTP nibble 2), sdoId 0x300, complete, valid timestamps.
+fn well_formed(d: &Dgram, kind: u8) -> bool {
+    let b = &d.bytes;
+    let sdo_ok = (b[0] >> 4) == 3 && b[5] == 0;
+    let ver_ok = b[1] & 0x0f == 2;
+    let ts_ok = be32(b, 40) < 1_000_000_000;
+    let tlv_ts_ok = kind != 0 || be32(b, 54) < 1_000_000_000;
+    sdo_ok && ver_ok && ts_ok && tlv_ts_ok
+}
+
+fn raw_ts(b: &[u8], o: usize) -> (u64, u32) {
+    (be48(b, o), be32(b, o + 6))
+}
+fn ts_pair(t: Timestamp) -> (u64, u32) {
+    (t.seconds(), t.nanos())
+}
+
+#[derive(Clone, Copy)]
+enum Spec {
+    Idle,
+    HaveSync { idx: usize },
+    HaveFollowUp { idx: usize },
+}
+
+fn collect<const N: usize>() {
+    // ---- draws
+    let kinds: [u8; N] = kani::any();
+    let mut i = 0;
+    while i < N {
+        kani::assume(kinds[i] < 3);
+        i += 1;
+    }
+    let domain: u8 = kani::any();
+    let request_id: u16 = kani::any();
+    let send_ts = any_timestamp();
+    let mut d = [Dgram { bytes: [0; DG], len: 0, rx: None, recv_err: false }; N];
+    let mut i = 0;
+    while i < N {
+        d[i] = any_dgram(kinds[i]);
+        i += 1;
+    }
+
+    // ---- code under test
+    let manager: CsptpManager<RefCell<InternalState>> = CsptpManager::new(CsptpConfig::default());
+    let cfg = CsptpSourceConfig { domain, ..CsptpSourceConfig::default() };
+    let mut src = CsptpSource::new(
+        ntp_proto::verif::source::clock_id(1),
+        ntp_proto::verif::source::clock_id(2),
+        cfg,
+        &manager,
+        NullCtl,
+    );
+    let script = RefCell::new(Script { d, next: 0 });
+    let result = {
+        let fut = sh::collect_response_hook(&mut src, ScriptSock(&script), request_id, send_ts);
+        let mut fut = core::pin::pin!(fut);
+        let mut cx = Context::from_waker(std::task::Waker::noop());
+        fut.as_mut().poll(&mut cx)
+    };
+    let consumed = script.borrow().next;
+
+    // ---- reference machine over the raw datagrams
+    let mut st = Spec::Idle;
+    let mut produced: Option<(usize, usize, usize)> = None; // (index of Sync, index of Follow_Up or MAX, last index)
+    let mut i = 0;
+    while i < N {
+        if produced.is_none() {
+            let k = kinds[i];
+            let b = &d[i].bytes;
+            let usable = !d[i].recv_err && well_formed(&d[i], k) && b[4] == domain && be16(b, 30) == request_id;
+            if usable && k == 0 && d[i].rx.is_some() {
+                let two_step = b[6] & 2 != 0;
+                if !two_step {
+                    produced = Some((i, usize::MAX, i));
+                } else {
+                    match st {
+                        Spec::Idle => st = Spec::HaveSync { idx: i },
+                        Spec::HaveSync { .. } => {}
+                        Spec::HaveFollowUp { idx } => produced = Some((i, idx, i)),
+                    }
+                }
+            } else if usable && k == 1 {
+                match st {
+                    Spec::Idle => st = Spec::HaveFollowUp { idx: i },
+                    Spec::HaveSync { idx } => produced = Some((idx, i, i)),
+                    Spec::HaveFollowUp { .. } => {}
+                }
+            }
+        }
+        i += 1;
+    }
+
+    match (result, produced) {
+        (Poll::Pending, None) => {
+            assert!(consumed == N, "without a usable answer every datagram is read and the client keeps waiting");
+            kani::cover!(N >= 2 && matches!(st, Spec::HaveSync { .. }), "two-step answer still waiting for its follow-up");
+            kani::cover!(N >= 1 && d[0].bytes[4] == domain && be16(&d[0].bytes, 30) != request_id && !d[0].recv_err && well_formed(&d[0], kinds[0]), "well-formed answer with a foreign sequence id ignored");
+            kani::cover!(N >= 1 && d[0].bytes[4] != domain && be16(&d[0].bytes, 30) == request_id && !d[0].recv_err && well_formed(&d[0], kinds[0]), "well-formed answer of a foreign domain ignored");
+        }
+        (Poll::Ready(m), Some((si, fi, last))) => {
+            assert!(consumed == last + 1, "the measurement is produced by the completing datagram; nothing after it is read");
+            let sb = &d[si].bytes;
+            assert!(sb[4] == domain && be16(sb, 30) == request_id, "the answer used carries the request's domain and sequence id");
+            assert!(ts_pair(m.request_send_time()) == ts_pair(send_ts), "request send time = local send timestamp");
+            assert!(ts_pair(m.request_recv_time()) == raw_ts(sb, 48), "request receive time = reqIngressTimestamp of the response TLV");
+            assert!(m.request_correction().0 == be64(sb, 58) as i64, "request correction = reqCorrectionField of the response TLV");
+            assert!(d[si].rx.is_some() && ts_pair(m.response_recv_time()) == ts_pair(d[si].rx.unwrap()), "response receive time = socket timestamp of the Sync");
+            let sync_corr = be64(sb, 8) as i64;
+            if fi == usize::MAX {
+                assert!(sb[6] & 2 == 0, "one-step answer");
+                assert!(ts_pair(m.response_send_time()) == raw_ts(sb, 34), "one-step: response send time = originTimestamp");
+                assert!(m.response_correction().0 == sync_corr, "one-step: response correction = Sync correctionField");
+            } else {
+                let fb = &d[fi].bytes;
+                assert!(fb[4] == domain && be16(fb, 30) == request_id, "the follow-up used carries the request's domain and sequence id");
+                assert!(ts_pair(m.response_send_time()) == raw_ts(fb, 34), "two-step: response send time = preciseOriginTimestamp");
+                let fu_corr = be64(fb, 8) as i64;
+                assert!(m.response_correction().0 == sync_corr.saturating_add(fu_corr), "two-step: corrections add up (saturating)");
+            }
+            kani::cover!(fi == usize::MAX, "one-step measurement");
+            kani::cover!(fi != usize::MAX && fi > si, "two-step measurement, follow-up after sync");
+            kani::cover!(fi != usize::MAX && fi < si, "two-step measurement, follow-up before sync");
+            kani::cover!(last + 1 < N, "measurement produced before the script ended (later datagrams unread)");
+        }
+        (Poll::Ready(_), None) => assert!(false, "a measurement was produced although no usable answer was delivered"),
+        (Poll::Pending, Some(_)) => assert!(false, "a usable answer was delivered but no measurement was produced"),
+    }
+}
+
+#[kani::proof]
+#[kani::unwind(8)]
+fn c44_collect() {
+    collect::<2>();
+}
+
+#[kani::proof]
+#[kani::unwind(8)]
+fn c44_collect_3() {
+    collect::<3>();
+}
